@@ -102,6 +102,38 @@ func c16CapsSticky(p *chk.Prog, r *chk.Report) {
 		if res == nil {
 			res = f.Param(1)
 		}
+		// the flags collected in a scratch value that is stored through the result pointer as a whole (`*ret = caps`):
+		// the scratch value must start as the whole of what was collected so far (`caps := *ret`), and its flags are
+		// held to the same rule; a scratch value seeded field by field drops the flags of the earlier parameters
+		scratch := map[types.Object]bool{}
+		ast.Inspect(f.Body, func(nd ast.Node) bool {
+			as, ok := nd.(*ast.AssignStmt)
+			if !ok || len(as.Lhs) != 1 || len(as.Rhs) != 1 || res == nil {
+				return true
+			}
+			st, isStar := ast.Unparen(as.Lhs[0]).(*ast.StarExpr)
+			if !isStar || f.ObjOf(st.X) != types.Object(res) {
+				return true
+			}
+			okWhole := false
+			if id, isId := ast.Unparen(as.Rhs[0]).(*ast.Ident); isId {
+				if o := f.ObjOf(id); o != nil {
+					defs := assignsTo(f, o)
+					okWhole = len(defs) == 1
+					for _, d := range defs {
+						da, isAs := d.(*ast.AssignStmt)
+						if !isAs || len(da.Lhs) != 1 || len(da.Rhs) != 1 || f.MatchWith("*R", da.Rhs[0], chk.H("R", f.IsObj(res))) == nil {
+							okWhole = false
+						}
+					}
+					if okWhole {
+						scratch[o] = true
+					}
+				}
+			}
+			x.Check(name+":whole-result-store", as.Pos(), okWhole, "", "the result is overwritten as a whole with a value that does not start from everything collected so far: the capability flags established by an earlier optional parameter of the OPEN are lost (RFC 5492 allows one capability per parameter)")
+			return true
+		})
 		ast.Inspect(f.Body, func(nd ast.Node) bool {
 			as, ok := nd.(*ast.AssignStmt)
 			if !ok || len(as.Lhs) != len(as.Rhs) {
@@ -109,7 +141,7 @@ func c16CapsSticky(p *chk.Prog, r *chk.Report) {
 			}
 			for i, l := range as.Lhs {
 				sel, isSel := ast.Unparen(l).(*ast.SelectorExpr)
-				if !isSel || f.RootObj(sel.X) != types.Object(res) || res == nil {
+				if !isSel || res == nil || (f.RootObj(sel.X) != types.Object(res) && !scratch[f.RootObj(sel.X)]) {
 					continue
 				}
 				if t := f.Info().TypeOf(l); t == nil || !types.Identical(t.Underlying(), types.Typ[types.Bool]) {
@@ -500,22 +532,37 @@ func errorAlwaysReturned(f *chk.Fn, g *chk.Graph, from func(rhs ast.Expr) bool, 
 	if len(es) == 0 {
 		return false
 	}
-	handedOn := map[types.Object]bool{}
 	for _, e := range es {
-		if g.BranchAlways(e, func(n ast.Node) bool {
-			if isErrReturn(f, n) {
-				return true
-			}
-			if as, isAs := n.(*ast.AssignStmt); isAs && as.Tok == token.ASSIGN && len(as.Lhs) == 1 && len(as.Rhs) == 1 {
-				if l, isId := as.Lhs[0].(*ast.Ident); isId && inlineResult.MatchString(l.Name) && !f.IsNilLit(as.Rhs[0]) && isErrorTyped(f, as.Rhs[0]) {
+		if !branchRefuses(f, g, e, depth) {
+			return false
+		}
+	}
+	return true
+}
+
+// branchRefuses: every path from the edge ends by returning an error, or hands a non-nil error to the result variable
+// of an expanded helper (`_inlNrK = err; goto L`, also as one position of a tuple assignment) whose non-nil value is in
+// turn always returned.
+func branchRefuses(f *chk.Fn, g *chk.Graph, e chk.Edge, depth int) bool {
+	if depth > 3 {
+		return false
+	}
+	handedOn := map[types.Object]bool{}
+	if g.BranchAlways(e, func(n ast.Node) bool {
+		if isErrReturn(f, n) {
+			return true
+		}
+		if as, isAs := n.(*ast.AssignStmt); isAs && as.Tok == token.ASSIGN && len(as.Lhs) == len(as.Rhs) {
+			for i := range as.Lhs {
+				if l, isId := as.Lhs[i].(*ast.Ident); isId && inlineResult.MatchString(l.Name) && !f.IsNilLit(as.Rhs[i]) && isErrorTyped(f, as.Rhs[i]) {
 					handedOn[f.ObjOf(l)] = true
 					return true
 				}
 			}
-			return false
-		}).Found {
-			return false
 		}
+		return false
+	}).Found {
+		return false
 	}
 	for o := range handedOn {
 		o := o
@@ -1331,6 +1378,12 @@ func c16Read(p *chk.Prog, r *chk.Report) {
 							hdrSize = chk.PackedSize(t)
 						}
 						okN = c == hdrSize && hdrSize == 19
+					} else if n, isArr := c16ByteHeaderLen(f, g, b["L"]); isArr {
+						// the header read as its 19 bytes and decoded by hand: the length is the big-endian word after the
+						// 16-byte marker
+						c, _ := constInt(f, b["C"])
+						hdrSize = n
+						okN = c == hdrSize && hdrSize == 19
 					}
 				}
 			} else {
@@ -1519,9 +1572,27 @@ func c16Read(p *chk.Prog, r *chk.Report) {
 			n++
 		}
 		ok := false
+		byteHdr := 0
+		if n == 1 {
+			// the header read as its bytes into an array (and decoded by hand), the fixed fields into a struct
+			for _, e := range g.EdgesImplying(g.GPat(true, "L < C")) {
+				if b := f.MatchNew("L < C", e.B.Nodes[len(e.B.Nodes)-1].(ast.Expr)); b != nil {
+					if sz, isArr := c16ByteHeaderLen(f, g, b["L"]); isArr {
+						byteHdr = sz
+					}
+				}
+			}
+			if byteHdr > 0 {
+				hdrT, openT = types.NewArray(types.Typ[types.Uint8], int64(byteHdr)), hdrT
+			}
+		}
 		if hdrT != nil && openT != nil {
 			want := chk.PackedSize(hdrT) + chk.PackedSize(openT)
 			isLen := isOrSucceedsAs(f, g, "H.Len")
+			if byteHdr > 0 {
+				want = byteHdr + chk.PackedSize(openT)
+				isLen = func(e ast.Expr) bool { _, isArr := c16ByteHeaderLen(f, g, e); return isArr }
+			}
 			for _, e := range g.EdgesImplying(g.GPat(true, "L < C", chk.H("L", isLen))) {
 				cond := e.B.Nodes[len(e.B.Nodes)-1].(ast.Expr)
 				b := f.MatchNew("L < C", cond)
@@ -1594,6 +1665,13 @@ func sendsBuffer(f *chk.Fn, buf types.Object) func(ast.Node) bool {
 		f.ContainsPat("B.WriteTo(W)", chk.H("B", isB)),
 		f.ContainsPat("W.Write(B.Bytes())", chk.H("B", isB)),
 	}
+	// the buffer handed out by the (expanded) encoding step as a pointer: a local that is &B on every success exit of it
+	ptrB := isOrSucceedsAs(f, f.Graph(), "&B", chk.H("B", isB))
+	viaPtr := func(e ast.Expr) bool {
+		_, isId := ast.Unparen(e).(*ast.Ident)
+		return isId && ptrB(e)
+	}
+	forms = append(forms, f.ContainsPat("io.Copy(W, P)", chk.H("P", viaPtr)), f.ContainsPat("P.WriteTo(W)", chk.H("P", viaPtr)), f.ContainsPat("W.Write(P.Bytes())", chk.H("P", viaPtr)))
 	return func(n ast.Node) bool {
 		for _, fm := range forms {
 			if fm(n) {
@@ -1953,11 +2031,8 @@ func c16Tolerant(p *chk.Prog, r *chk.Report) {
 	}
 	leftover := chk.GSame(g.GPat(true, "LR.N != 0"), g.GPat(false, "LR.N == 0"), g.GPat(true, "LR.N > 0"))
 	n := 0
-	for _, rt := range g.Returns() {
-		res := retResults(rt)
-		if len(res) != 1 || f.IsNilLit(res[0]) {
-			continue
-		}
+	for _, ex := range errorExits(f, g, 0) {
+		rt, res := ex.Site, []ast.Expr{ex.Expr}
 		n++
 		ok := false
 		switch {
@@ -2080,4 +2155,38 @@ func constBytesWritten(p *chk.Prog, f *chk.Fn) ([]int, token.Pos, bool) {
 		return nil, 0, false
 	}
 	return out, cl.Pos(), true
+}
+
+// c16ByteHeaderLen: e is the total-length word of a BGP message header that was read as raw bytes:
+// binary.BigEndian.Uint16(H[16:18]) for an array H of N bytes filled by one io.ReadFull(R, H[:]) - directly, or as the
+// value a header-reading helper hands out on its success exits. It returns N.
+func c16ByteHeaderLen(f *chk.Fn, g *chk.Graph, e ast.Expr) (int, bool) {
+	var arr ast.Expr
+	is := isOrSucceedsAs(f, g, "binary.BigEndian.Uint16(H[16:18])", chk.H("H", func(h ast.Expr) bool { arr = h; return true }))
+	if !is(e) || arr == nil {
+		return 0, false
+	}
+	at, isArr := f.Info().TypeOf(arr).Underlying().(*types.Array)
+	if !isArr || at.Len() < 18 {
+		return 0, false
+	}
+	if b, isB := at.Elem().Underlying().(*types.Basic); !isB || b.Kind() != types.Uint8 {
+		return 0, false
+	}
+	same := func(x ast.Expr) bool { return f.SameExpr(x, arr) }
+	if len(g.FindPat("io.ReadFull(R, H[:])", chk.H("H", same))) != 1 {
+		return 0, false
+	}
+	// nothing else writes the array
+	o := f.RootObj(arr)
+	for _, n := range assignsTo(f, o) {
+		if as, isAs := n.(*ast.AssignStmt); isAs {
+			for _, l := range as.Lhs {
+				if _, isIx := ast.Unparen(l).(*ast.IndexExpr); isIx {
+					return 0, false
+				}
+			}
+		}
+	}
+	return int(at.Len()), true
 }
